@@ -117,7 +117,8 @@ class ConcreteLinearProblem:
 class ConcreteMaker:
     mode = 'native'
 
-    def __init__(self, model=None, seed=0):
+    def __init__(self, model=None, seed=0, special=False):
+        self.special = special
         self.model = model or {}
         self.rng = random.Random(seed)
         self.nrng = np.random.RandomState(seed)
@@ -135,6 +136,11 @@ class ConcreteMaker:
         return v
 
     def real(self, name):
+        if self.special and name not in self.model:
+            # IEEE special values (bounded side check: the symbolic proofs treat floats as reals)
+            v = self.rng.choice([float('nan'), float('inf'), float('-inf'), 0.0, -0.0, self.rng.uniform(0.2, 1.5), self.rng.uniform(-1.5, 1.5)])
+            self.used[name] = v
+            return v
         return float(self._get(name, lambda: self.rng.uniform(0.2, 1.5)))
 
     def int(self, name):
@@ -166,9 +172,9 @@ class ConcreteMaker:
             self.pre_ok = False
 
 
-def run_native(contract, inst, model=None, seed=0):
+def run_native(contract, inst, model=None, seed=0, special=False):
     """evaluate the contract natively once; returns dict(pre_ok, failed=[clause names], exc, used inputs)"""
-    mk = ConcreteMaker(model, seed)
+    mk = ConcreteMaker(model, seed, special=special)
     st = contract.build(inst, mk)
     pre = [bool(c) for c in contract.pre(st)]
     if not all(pre) or not mk.pre_ok:
